@@ -366,8 +366,11 @@ def ctor_imaging(mask, seed, covariance):
     _quiet()
     r = np.random.default_rng(seed)
     sc, o = (1.0, 2.0), (0.5, -1.0)
-    data = aa.Array2D.no_mask(values=r.normal(size=mask.shape) + 5.0, pixel_scales=sc, origin=o)
-    noise = aa.Array2D.no_mask(values=r.uniform(1.0, 2.0, size=mask.shape), pixel_scales=sc, origin=o)
+    # both storage forms of the caller's arrays (an unmasked natively stored array IS its own native form: nothing may hand it out for editing)
+    sn = bool(seed % 2)
+    full = aa.Mask2D.all_false(shape_native=mask.shape, pixel_scales=sc, origin=o)
+    data = aa.Array2D(values=r.normal(size=mask.shape) + 5.0, mask=full, store_native=sn)
+    noise = aa.Array2D(values=r.uniform(1.0, 2.0, size=mask.shape), mask=full, store_native=sn)
     psf = aa.Kernel2D.no_mask(values=_PSF, pixel_scales=sc)
     cov = (np.eye(mask.size) * 2.0 + 0.1) if covariance else None
     osd = aa.OverSamplingDataset(uniform=aa.OverSamplingUniform(sub_size=2))
